@@ -269,7 +269,7 @@ func c02OptPrepare(src string, names []string) *c02OptCase {
 		}
 		nb.WriteString(cps(n))
 	}
-	extra := cps("tickI") + ":1:0 " + cps("tickP") + ":1:1"
+	extra := cps("tickI") + ":1:0 " + cps("tickP") + ":1:1 " + cps(".tickM") + ":1:0" // ".name" = a host METHOD declared impure
 	oc.request = fmt.Sprintf("OPT\tfixed\t%s\t%s\t%s", nb.String(), extra, oc.implRaw)
 	return oc
 }
